@@ -587,7 +587,15 @@ def _gather(a: NdArr, idx: NdArr) -> NdArr:
     material index) give one opaque table lookup per remaining position: lookup(column, index)."""
     if all(isinstance(_as_int(i), int) for i in idx.data) and not idx.sp:
         out = [getitem(a, _as_int(i)) for i in idx.data]
-        return stack(out, 0) if idx.shape else out[0]
+        if not idx.shape:
+            return out[0]
+        st = stack(out, 0)
+        if len(idx.shape) > 1:
+            # an n-d index array: the selected rows are laid out in the index array's own shape
+            if st.sp or st.trail:
+                raise AnalysisError("gather with an n-d concrete index array from an array with spatial dims")
+            return NdArr(idx.shape + st.shape[1:], st.data)
+        return st
     if a.sp or a.trail or not a.shape:
         raise AnalysisError("gather with symbolic indices from an array with spatial dims")
     M, rest = a.shape[0], a.shape[1:]
